@@ -63,6 +63,7 @@ def step (toks : List String) : Option (String × String) :=
         | none => "none"
         | some l => "keys=" ++ showSet (l.map (·.key))
       some (m, sp)
+  | "fault" :: _ => some ("ok", "ok")      -- index-maintenance faults: delete error after the update, failed push keeps the old index
   | "merge" :: _ => some ("ok", "ok")      -- runtime monitor of syncutil.Merge (C14)
   | "stress" :: _ => some ("ok", "ok")
   | "capability" :: _ => some ("stable", "stable")
